@@ -52,13 +52,16 @@ def run(ctx):
                 key = (s["mn"] in ("LDA", "LDX", "LDY", "STA", "STY", "JMP", "INC", "LEAX", "ANDCC"), s["mn"], s["form"], s["ind"], s["force"], s["reg"])
                 if key[0] and s["reg"] in ("X", "S"):
                     reps.setdefault(key, s)
-        cases = []
+        cases, nsw = [], 0                      # (built and judged in slices of 250,000: the whole sweep does not fit in memory at once)
         for s in reps.values():
             for v in list(range(0, 65536, 1 if s["form"] in ("imm", "idx") else 3)) + list(range(-32768, 0, 5)) + list(range(-300, 0)):
                 t = asmgen.with_expr(s, asmgen.ex(asmgen.num(v, "dec" if v < 0 else rnd.choice(["dec", "hex", "hex4"]))))
                 cases.append(framed(t, "sweep"))
-        for k in range(0, len(cases), 250000):
-            asmcheck.run_suite(ctx, "sweep-%d" % (k // 250000), cases[k:k + 250000])
+                if len(cases) >= 250000:
+                    asmcheck.run_suite(ctx, "sweep-%d" % nsw, cases)
+                    cases, nsw = [], nsw + 1
+        if cases:
+            asmcheck.run_suite(ctx, "sweep-%d" % nsw, cases)
     ctx.cov["rule"] = ("cases = TLC-enumerated valid statements (139 mnemonics x README operand forms x boundary values x spellings), their "
                        "EQU/label variants, and seeded random redraws; each assembled in a labelled 3-statement frame and judged by TLC "
                        "(bytes in Asm!Acceptable, decodes, reserved, placed...). distinct_nontrivial = distinct spec classes "
